@@ -108,7 +108,7 @@ static uint64_t p0_count(int thorough) {
 }
 static void p0_run(uint64_t idx, vh_rng_t * rng) {
     static vh_buf_t A[6], B, alone, after, all;
-    int na = (idx % 3 == 0) ? 1 + (int) vh_below(rng, 6) : 1, i, fa = 0, fb = 0, overrun = 0, zero_flush = 0;
+    int na = (idx % 3 == 0) ? 1 + (int) vh_below(rng, 6) : 1, i, fa = 0, fb = 0, overrun = 0, zero_flush = 0, reinit = 0;
     vh_ctx_t * v; size_t bufsize = 512; char key[128];
     if (!sigs[0].nsteps) init_sigs();
     vh_buf_reset(&all);
@@ -174,14 +174,25 @@ static void p0_run(uint64_t idx, vh_rng_t * rng) {
         { char * big = (char *) malloc(fill); memset(big, 'A', fill); vh_input(v, big, fill); free(big); }
     }
     if (zero_flush) vh_input(v, NULL, 0);
+    /* the application may initialise the same context object and buffers again: then NOTHING of A is left, not even status and errors */
+    if (idx % 8 == 5) { vh_ctx_reinit(v); v->sigs = sigs; v->nsigs = NSIG; reinit = 1; }
     vh_ctx_clear_capture(v);
     vh_input(v, B.p, B.len);
     capture(v, &after);
+    if (reinit) {
+        int i2; uint16_t regs_fresh[10], regs_re[10]; vh_ctx_t * w = vh_ctx_new(cmds, bufsize, 64, 1024); w->sigs = sigs; w->nsigs = NSIG;
+        vh_input(w, B.p, B.len);
+        for (i2 = 0; i2 < 10; i2++) { regs_fresh[i2] = SCPI_RegGet(w->ctx, (scpi_reg_name_t) i2); regs_re[i2] = SCPI_RegGet(v->ctx, (scpi_reg_name_t) i2); }
+        if (memcmp(regs_fresh, regs_re, sizeof regs_fresh) != 0 || SCPI_ErrorCount(w->ctx) != SCPI_ErrorCount(v->ctx))
+            vh_violation("C09:reinitialised-context-differs-from-a-new-one:status-or-errors", "A = \"%s\"; SCPI_Init again; B = \"%s\": registers/error count after B differ from a new context (STB 0x%02x vs 0x%02x, ESR 0x%02x vs 0x%02x, errors %d vs %d)", vh_esc(all.p, all.len), vh_esc(B.p, B.len), regs_re[0], regs_fresh[0], regs_re[2], regs_fresh[2], (int) SCPI_ErrorCount(v->ctx), (int) SCPI_ErrorCount(w->ctx));
+        vh_ctx_free(w);
+        vh_count("pairs.context_initialised_again_between_A_and_B", 1);
+    }
     vh_eval(2);
     if (alone.len != after.len || memcmp(alone.p, after.p, alone.len) != 0) {
         const char * cls = (fa & 4) ? "after-unfinished-or-overlong-block" : (fa & 2) ? "after-failing-message" : "after-succeeding-message";
         const char * bcls = (fb & 16) ? "B-starts-relative" : (fb & 1) ? "B-responds" : "B-silent";
-        snprintf(key, sizeof key, "C09:trace-of-B-differs:%s:%s%s", cls, bcls, overrun ? ":after-overrun" : "");
+        snprintf(key, sizeof key, "C09:trace-of-B-differs:%s:%s%s%s", cls, bcls, overrun ? ":after-overrun" : "", reinit ? ":after-SCPI_Init-again" : "");
         vh_violation(key, "A = \"%s\"%s%s; B = \"%s\": B alone -> [%s]; B after A -> [%s]", vh_esc(all.p, all.len), overrun ? " + pending bytes and an overrunning chunk" : "", zero_flush ? " + flush" : "", vh_esc(B.p, B.len), vh_esc(alone.p, alone.len), vh_esc(after.p, after.len));
     }
     vh_ctx_free(v);
@@ -268,6 +279,6 @@ int main(int argc, char ** argv) {
     static const vh_phase_t phases[] = { { "pairs", p0_count, p0_run }, { "units within one message", p1_count, p1_run } };
     vh_decoy_enable(7); vh_require("decoy.messages_run_on_a_second_context"); vh_require("pairs.direct_line_parse_same_length"); vh_require("unit.X_raises_errors"); vh_require("unit.block_data_without_header_after_unfinished_block"); vh_require("unit.both_units_raise_errors");
     vh_require("A.sequence_of_messages"); vh_require("A.raises_errors"); vh_require("A.leaves_block_unfinished_or_overlong"); vh_require("A.ends_with_compound_path");
-    vh_require("A.overrun_with_pending_bytes"); vh_require("pairs.A_ran_the_later_of_two_overlapping_entries_B_is_accepted_by_both"); vh_require("A.overrun_with_pending_complete_units"); vh_require("B.uses_relative_header"); vh_require("B.responds"); vh_require("A.responds"); vh_require("B.block_data_without_header_after_unfinished_block");
+    vh_require("A.overrun_with_pending_bytes"); vh_require("pairs.context_initialised_again_between_A_and_B"); vh_require("pairs.A_ran_the_later_of_two_overlapping_entries_B_is_accepted_by_both"); vh_require("A.overrun_with_pending_complete_units"); vh_require("B.uses_relative_header"); vh_require("B.responds"); vh_require("A.responds"); vh_require("B.block_data_without_header_after_unfinished_block");
     return vh_main(argc, argv, "C09", phases, 2);
 }
